@@ -120,12 +120,17 @@ def explore(task):
 
 # ------------------------------------------------------------------ files that consist of ONE top-level statement
 SINGLE_V2 = {"import": "import core", "import-path": "import \"lib/x\"", "flow": "flow a\n  match A()", "flow-with-params": "flow a $p\n  send B(p=$p)",
-             "two-imports": "import core\nimport llm", "import-and-flow": "import core\nflow a\n  match A()", "comment-only": "# nothing here", "decorated-flow": "@active\nflow a\n  match A()"}
+             "two-imports": "import core\nimport llm", "import-and-flow": "import core\nflow a\n  match A()", "comment-only": "# nothing here", "decorated-flow": "@active\nflow a\n  match A()",
+             "expressions-on-later-lines": "flow a $p\n  $x = $p + 1\n  if $x > 2 and $p\n    send B(p=$x, q=[1, 2])\n  else\n    send C(t=\"a {$x} b\")\n  while $x < 5\n    $x = $x + 1"}
 SINGLE_V1 = {"flow": "define flow a\n  user x\n  bot y", "user": "define user x\n  \"hi\"", "bot": "define bot y\n  \"ok\"", "subflow": "define subflow s\n  bot y",
-             "comment-only": "# nothing here"}
+             "comment-only": "# nothing here",
+             "expressions-on-later-lines": "define flow a\n  user x\n  $n = $n + 1\n  if $n > 2 and $m\n    bot y\n  else\n    bot z\n  while $n < 5\n    $n = $n + 1"}
 LAYOUTS = {"as-is": lambda t: t, "final-newline": lambda t: t + "\n", "blank-line-before": lambda t: "\n" + t + "\n", "two-blank-lines-before": lambda t: "\n\n" + t + "\n",
            "blank-lines-after": lambda t: t + "\n\n\n", "trailing-blanks": lambda t: "\n".join(l + "  " for l in t.split("\n")) + "\n",
-           "blank-line-with-blanks-before": lambda t: "   \n" + t + "\n"}
+           "blank-line-with-blanks-before": lambda t: "   \n" + t + "\n",
+           # a carriage return before the line feed is trailing whitespace of the line (files written on another platform)
+           "crlf-line-ends": lambda t: t.replace("\n", "\r\n") + "\r\n",
+           "crlf-line-ends-and-blank-lines": lambda t: "\r\n" + t.replace("\n", "\r\n\r\n") + "\r\n"}
 
 
 def explore_single(ver):
